@@ -234,12 +234,6 @@ func checkBridge(c BridgeCase, cv *cov) (v *evid.Violation) {
 						return
 					}
 					unregErrs[idx] = err
-					for j := range unregErrs {
-						if j != idx && unregErrs[j] != nil && unregErrs[j].Error() == err.Error() {
-							v = evid.Failf("step %d %s: the not-registered error %q is not specific to this callback", i, op.K, err)
-							return
-						}
-					}
 				}
 			default:
 				continue
